@@ -158,6 +158,8 @@ pub struct KOp {
     pub addr3: u64,
     /// multishot/poll re-arm: the condition was seen false since the last completion
     pub armed: bool,
+    /// (Engine M) the scheduler's progress count when the multishot poll last fired
+    pub fired_at_progress: u64,
     pub cancel_requested: bool,
     /// zero-copy: data sent, notification CQE still owed
     pub zc_notif_owed: bool,
@@ -194,6 +196,7 @@ pub fn decode(sqe: &[u8; 64], seq: u64) -> KOp {
         file_index: rd::<i32>(sqe, 44),
         addr3: rd::<u64>(sqe, 48),
         armed: true,
+        fired_at_progress: 0,
         cancel_requested: false,
         zc_notif_owed: false,
         connect_started: false,
@@ -362,6 +365,12 @@ impl KOp {
                 self.armed = true;
                 return false;
             }
+            // (Engine M) or when another thread has run since it fired: the kernel posts a completion per
+            // wake-up of the descriptor's wait queue (every write to an eventfd is one), also when this
+            // thread never saw the descriptor in between, unreadable
+            if !self.armed && crate::multi::progress().map(|p| p != self.fired_at_progress).unwrap_or(false) {
+                self.armed = true;
+            }
             return self.armed;
         }
         r
@@ -461,6 +470,7 @@ impl KOp {
                 }
                 if self.is_multishot() {
                     self.armed = false;
+                    self.fired_at_progress = crate::multi::progress().unwrap_or(0);
                     if crate::flip("k.multishot.end", cx.multishot_end) {
                         crate::fault("multishot-ended-by-kernel");
                         return Outcome::Done(rev as i32, 0);
